@@ -219,6 +219,7 @@ def run(repo, chk):
     rule_c_d(repo, chk, flag, cache)
     rule_e(repo, chk)
     rule_f(repo, chk)
+    rule_g(repo, chk)
 
 
 # ---------------------------------------------------------------------------
@@ -677,3 +678,38 @@ def _is_table_get(e, keypred):
         if isinstance(w, ast.Subscript) and src(w.value) == 'self._handlers' and keypred(w.slice):
             return True
     return False
+
+
+def rule_g(repo, chk):
+    """Handlers inherited from base classes are worked out per instantiation from the class being instantiated; a memo stored
+    on a class is inherited by its subclasses (attribute lookup follows the MRO) and hands them the wrong set."""
+    chk.rule('C01.g', 'BaseComponent.__new__ derives the inherited handlers from cls.__dict__ / cls.__bases__ of the class being instantiated and '
+                      'stores nothing on a class; the override flag of the subclass decides which base handlers are bound')
+    f = repo.func(COMPONENTS, 'BaseComponent.__new__')
+    chk.touch(f)
+    cls_p = f.params[0]
+    writes = []
+    reads = set()
+    for n in ast.walk(f.node):
+        if isinstance(n, (ast.Assign, ast.AugAssign)):
+            for recv, attr, _v in pat.attr_store(n):
+                if recv == cls_p or recv in ('base', 'type(self)', 'self.__class__'):
+                    writes.append(n)
+        if isinstance(n, ast.Call) and call_name(n) == 'setattr' and n.args and src(n.args[0]) in (cls_p, 'base', 'type(self)'):
+            writes.append(n)
+        if isinstance(n, ast.Attribute) and src(n.value) == cls_p and isinstance(n.ctx, ast.Load):
+            reads.add(n.attr)
+        if isinstance(n, ast.Call) and call_name(n) in ('getattr', 'hasattr') and len(n.args) >= 2 and src(n.args[0]) == cls_p:
+            reads.add('getattr:' + src(n.args[1]))
+    chk.ob('g', f.ref, 'nothing is stored on a class while an instance is being created (no per-class memo of inherited handlers)', not writes, loc(f, (writes or [f.node])[0]),
+           detail='; '.join(src(w)[:60] for w in writes), discr='no-class-memo')
+    ok_reads = reads <= {'__dict__', '__bases__', '__name__', '__mro__'}
+    chk.ob('g', f.ref, 'the class being instantiated is consulted only through its own __dict__ and __bases__ (no attribute lookup that follows the MRO)', ok_reads,
+           loc(f, f.node), detail=f'reads: {sorted(reads)}', discr='own-dict-only')
+    binds = [c for c in calls_in(f.node, include_nested_defs=True) if call_name(c) == 'setattr' and c.args and src(c.args[0]) == 'self']
+    ov = f.nested.get('overridden')
+    uses_override = ov is not None and '.override' in src(ov.node) and any(call_name(c) == 'overridden' for c in calls_in(f.node))
+    chk.ob('g', f.ref, 'base-class handlers are bound on the instance unless the subclass overrides them (override flag consulted)', bool(binds) and uses_override,
+           loc(f, f.node), discr='override-consulted')
+    loops = [n for n in walk_no_defs(f.node) if isinstance(n, ast.For) and src(n.iter) == f'{cls_p}.__bases__']
+    chk.ob('g', f.ref, 'every direct base class is visited', bool(loops), loc(f, f.node), discr='all-bases', nontrivial=False)
